@@ -75,6 +75,10 @@ func main() {
 		}
 		return
 	}
+	if *dump == "writeredges" {
+		dumpWriterEdges(P)
+		return
+	}
 	if *dump == "effects" {
 		E := P.Effects()
 		for _, f := range P.RepoFns {
@@ -192,7 +196,7 @@ func doDump(P *Prog, name string) {
 	}
 	for _, fn := range fns {
 		fmt.Printf("=== %s (%s)\n", short(fn.String()), P.Pos(fn.Pos()))
-		Instrs(fn, func(in ssa.Instruction) {
+		InstrsRaw(fn, func(in ssa.Instruction) {
 			switch x := in.(type) {
 			case ssa.CallInstruction:
 				t := (&termBuilder{P: P, stack: map[ssa.Value]bool{}}).callTerm(x.Common(), x.Value(), in)
